@@ -346,11 +346,12 @@ theorem cleanup_clears (p : ProxyS) (m : MuxL) (e : ESock) (se : Bool) (h : p.sw
   by_cases hf : p.sockFirst = true
   · simp only [hf, ↓reduceIte]
     apply hfin
+    rw [(preSelect_fields _ _).2.2.2.2.1]
     apply hdm
     rw [(hds p).1]; exact h
   · simp only [hf, Bool.false_eq_true, ↓reduceIte]
     apply hfin
-    rw [(hds _).2]
+    rw [(preSelect_fields _ _).2.2.2.2.1, (hds _).2]
     exact hdm p m h
 
 /-- **What can be delivered is delivered.**  A handler that is not connecting and holds bytes for
@@ -432,6 +433,46 @@ theorem callback_delivers (p : ProxyS) (m : MuxL) (e : ESock) (io : CbIo) (p' : 
       have := g1d (by simpa using hsaw) hn
       rw [hd1] at this
       omega
+
+/-! ### the callback leaves no flag to propagate -/
+
+/-- Nothing is left for `pre_select`'s flag propagation to do. -/
+def Settled (p : ProxyS) : Prop :=
+  (p.sw.shutW = true → p.mw.shutR = true) ∧ (p.mw.shutW = true → p.sw.shutR = true)
+
+theorem preSelect_settled (p : ProxyS) (m : MuxL) : Settled (p.preSelectFlags m).1 := by
+  obtain ⟨⟨sb, sr, sw, sc, sx⟩, ⟨wc, wb, wr, ww⟩, pok, sf⟩ := p
+  cases sf <;> cases sw <;> cases ww <;> cases wr <;>
+    simp [Settled, ProxyS.preSelectFlags, MuxW.noread, SockW.noread]
+
+/-- The completion test on a settled handler: afterwards the handler is settled, and if both
+writers are shut and nothing is buffered it has been marked finished. -/
+theorem finish_settled (p : ProxyS) (m : MuxL) (e : ESock) (se : Bool) (h : Settled p) :
+    Settled (p.finish m e se).1 ∧
+    ((p.finish m e se).1.sw.shutW = true → (p.finish m e se).1.mw.shutW = true →
+      (p.finish m e se).1.sw.buf = [] → (p.finish m e se).1.mw.buf = [] → (p.finish m e se).1.ok = false) := by
+  obtain ⟨⟨sb, sr, sw, sc, sx⟩, ⟨wc, wb, wr, ww⟩, pok, sf⟩ := p
+  obtain ⟨h1, h2⟩ := h
+  simp only at h1 h2
+  cases sf <;> cases sw <;> cases ww <;> cases wr <;> cases sr <;> cases sb <;> cases wb <;> cases se <;>
+    simp_all [Settled, ProxyS.finish, MuxW.nowrite, SockW.nowrite]
+
+theorem cleanup_settled (p : ProxyS) (m : MuxL) (e : ESock) (se : Bool) :
+    Settled (p.cleanup m e se).1 ∧
+    ((p.cleanup m e se).1.sw.shutW = true → (p.cleanup m e se).1.mw.shutW = true →
+      (p.cleanup m e se).1.sw.buf = [] → (p.cleanup m e se).1.mw.buf = [] → (p.cleanup m e se).1.ok = false) := by
+  unfold ProxyS.cleanup
+  exact finish_settled _ _ e se (preSelect_settled _ _)
+
+/-- After every callback the handler is settled, and a handler whose two writers are shut with
+nothing buffered has been marked finished by that very callback. -/
+theorem callback_settled (p : ProxyS) (m : MuxL) (e : ESock) (io : CbIo) (p' : ProxyS) (m' : MuxL) (e' : ESock)
+    (h : p.callback m e io = .ok p' m' e') :
+    Settled p' ∧ (p'.sw.shutW = true → p'.mw.shutW = true → p'.sw.buf = [] → p'.mw.buf = [] → p'.ok = false) := by
+  obtain ⟨q, m1, e1, _, hp'⟩ := callback_cleanup p m e io p' m' e' h
+  rw [hp']
+  exact cleanup_settled q m1 e1 io.shutErr
+
 
 /-- What `wants` asks for the mux: exactly the situation of `callback_sends`. -/
 theorem wants_muxW (p : ProxyS) (m : MuxL) :
